@@ -635,7 +635,15 @@ class MatlabWrapper(CheckMixin, FormatMixin):
         has_parent = parent_name != ''
         class_name = inst_class.name
         if has_parent:
-            parent_name = self._format_type_name(parent_name, separator=".")
+            # The base is named by its Matlab class, which lives in the package
+            # of all its namespaces whatever the class is called (the type
+            # formatter drops them for Matrix, Vector, Point2 and Point3).
+            parent_name = ".".join(
+                [ns for ns in parent_name.namespaces if ns] + [
+                    self._format_type_name(parent_name,
+                                           separator=".",
+                                           include_namespace=False)
+                ])
         if not isinstance(ctors, Iterable):
             ctors = [ctors]
 
